@@ -54,6 +54,17 @@ def fixtures():
     return core, tags, _K
 
 
+_E = None
+
+
+def extras(core):
+    """A catalogue of 24 further component types (applications have dozens)."""
+    global _E
+    if _E is None:
+        _E = [type(f'Gear{j}', (core.Component,), {'__slots__': ()}) for j in range(24)]
+    return _E
+
+
 def case_population(ctx, case):
     rng = ctx.rng('pop', case['i'])
     core, tags, K = fixtures()
@@ -75,6 +86,13 @@ def case_population(ctx, case):
         for T in K[:4]:
             if rng.random() < 0.65:
                 a.add_component(T(a, model))
+        if rng.random() < 0.35:
+            # equipment from a larger catalogue of component types, part of which is handed back before the agent joins
+            e1, e2 = rng.sample(extras(core), 2)
+            a.add_component(e1(a, model))
+            a.add_component(e2(a, model))
+            a.remove_component(e1)
+            ctx.count('agents_that_gave_a_component_back_before_joining')
         universe.append(a)
     for j in range(rng.choice([0, 0, 1, 2])):
         # environments are agents too: a nested environment (district, herd, ...) carrying components and a few agents of its own
@@ -158,9 +176,29 @@ def case_population(ctx, case):
             env.add_agent(back)
             order.append(back)
             ctx.count('size_preserving_swaps')
+        elif qn and len(order) >= 3 and not poisoned and rng.random() < 0.35:
+            # a whole round of departures and arrivals between two queries (a model step that culls and re-admits): several agents leave -
+            # often the most recent arrival among them - and as many join, in any order; agent objects come back as themselves
+            newest = order[-1]
+            leaving = rng.sample(order[:-1], rng.randint(1, min(3, len(order) - 1))) + ([newest] if rng.random() < 0.7 else [])
+            for a_ in leaving:
+                env.remove_agent(a_.id)
+                order.remove(a_)
+            outside = [a for a in universe if not any(a is b for b in order)]
+            arriving = rng.sample(outside, len(leaving))
+            if any(newest is a_ for a_ in leaving) and rng.random() < 0.7:
+                arriving = [a_ for a_ in arriving if a_ is not newest][:len(leaving) - 1] + [newest]     # ... the former newest comes back last
+            for a_ in arriving:
+                env.add_agent(a_)
+                order.append(a_)
+            ctx.count('rounds_of_departures_and_arrivals_between_two_queries')
         popsig = tuple((a.id, a.tag, tuple(sorted(t.__name__ for t in a.components))) for a in order)
         nt = rng.choice([0, 0, 0, 1, 1, 1, 2, 2, 3, 4])
         template = [rng.choice(K) for _ in range(nt)]
+        geared = [t_ for a_ in order for t_ in a_.components if t_.__name__.startswith('Gear')]
+        if geared and rng.random() < 0.3:
+            template = template[:2] + [rng.choice(geared)]         # a template that names a catalogue type somebody carries
+            ctx.count('queries_naming_a_catalogue_component')
         tag = rng.choice([None, None, None, 0, 0, rng.choice(tagpool), rng.choice(tagpool), 12345])
         kw = {} if tag is None and rng.random() < 0.5 else {'tag': tag}
         exp = [a for a in order if all(T in a.components for T in template) and (tag is None or a.tag == tag)]
